@@ -28,7 +28,7 @@ def process_level(res, tier):
     exe = pl.build.build_bin("plain")
     wd = pl.workdir("c03")
     stepss = [16, 32, 64] if tier == "thorough" else [32]
-    ns = [32, 48] if tier == "thorough" else [32]
+    ns = [32, 33, 48] if tier == "thorough" else [32, 33]
     shifts = [(0, 0), (2, -1), (-3, 2)] if tier == "thorough" else [(0, 0), (2, -1)]
     starts = [(1.0, 0.0), (-0.6, 0.8), (0.0, -1.1)] if tier == "thorough" else [(1.0, 0.0), (-0.6, 0.8)]
     cases = []
